@@ -4595,7 +4595,8 @@ class ResponseFuture(object):
         for host in self.query_plan:
             req_id = self._query(host)
             if req_id is not None:
-                self._req_id = req_id
+                # _query() has recorded the stream id before sending; by now the request may have
+                # been answered and retried on another stream, so it must not be recorded again here
                 return True
             if self.timeout is not None and time.time() - self._start_time > self.timeout:
                 self._on_timeout()
